@@ -23,7 +23,7 @@ import sys
 
 REPO = os.environ.get('VERIF_REPO', '/repo')
 HERE = os.path.dirname(os.path.abspath(__file__))
-OUT = os.path.join(HERE, '..', 'lean', 'Pymeeus', 'Gen', 'MoonData.lean')
+OUT = os.path.join(os.environ.get('VERIF_LEAN_DIR') or os.path.join(HERE, '..', 'lean'), 'Pymeeus', 'Gen', 'MoonData.lean')
 SRC = os.path.join(REPO, 'pymeeus', 'Moon.py')
 
 
